@@ -207,7 +207,9 @@ def parse_postfix(p, e, nostruct):
             e = ("index", e, idx)
             continue
         if p.at("?"):
-            raise Unsupported("? operator")
+            p.next()
+            e = ("try", e)
+            continue
         return e
 
 
@@ -219,6 +221,9 @@ def parse_primary(p, nostruct):
     if k == "str":
         p.next()
         return ("str", v)
+    if k == "chr":
+        p.next()
+        return ("chr", v)
     if v == "[" and k == "op":
         p.next()
         return ("array", parse_args(p, "]"))
@@ -250,6 +255,24 @@ def parse_primary(p, nostruct):
             if p.at("_"):
                 p.next()
                 pat = ("wild",)
+            elif p.peek()[0] == "chr":
+                pat = ("chr", p.next()[1])
+            elif p.peek()[0] == "id" and (p.at("::", 1) or p.at("{", 1)):
+                path = [p.ident()]
+                while p.eat("::"):
+                    path.append(p.ident())
+                fields = None
+                if p.eat("{"):
+                    fields = []
+                    while not p.at("}"):
+                        if p.eat(".."):
+                            fields.append("..")
+                        else:
+                            fields.append(p.ident())
+                        if not p.eat(","):
+                            break
+                    p.expect("}")
+                pat = ("pstruct", path, fields)
             else:
                 kk, vv = p.next()
                 if kk == "id":
@@ -326,7 +349,9 @@ def parse_if(p):
         p.expect("=")
         scrut = parse_expr(p, nostruct=True)
         th = parse_block(p)
-        el = parse_block(p) if p.eat("else") else None
+        el = None
+        if p.eat("else"):
+            el = [("expr", parse_if(p))] if p.at("if") else parse_block(p)
         return ("iflet", var, scrut, th, el)
     c = parse_expr(p, nostruct=True)
     th = parse_block(p)
@@ -398,6 +423,10 @@ def parse_stmt(p):
             it = ("range", it, hi, incl)
         body = parse_block(p)
         return ("for", var, it, body)
+    if k == "id" and v == "use":
+        while not p.eat(";"):
+            p.next()
+        return ("use",)
     if k == "id" and v in ("break", "continue") and p.at(";", 1):
         p.next(); p.next()
         return (v,)
